@@ -22,10 +22,10 @@ import (
 // same identity (the upstream marks its answers with the identity it saw).
 
 type c04bSys struct {
-	qs     []c04q
-	obs    []c04obs
-	later  []c04obs
-	infra  string
+	qs    []c04q
+	obs   []c04obs
+	later []c04obs
+	infra string
 }
 
 func c04bScenario(name string, variants [][]c04q, d int) vr.Scenario {
